@@ -1013,7 +1013,7 @@ impl C17 {
         };
         let cm = entry.cmplx();
         let w = if cm { 2 } else { 1 };
-        let max_dim = if tier == Tier::Thorough && rng.chance(0.05) { 8 } else { 6 };
+        let max_dim = if rng.chance(if tier == Tier::Thorough { 0.05 } else { 0.03 }) { 9 } else { 6 };
         let n = if entry.system() { rng.urange(1, max_dim) } else { 1 };
         let tol = log_uniform(rng, 1e-12, 1e-4);
         let delta = match rng.below(20) {
